@@ -101,6 +101,10 @@ func checkC20(c *Ctx) {
 								if ok3 && b3 == base && f3 == field && o3 == want && (core.Dominates(in, d) || core.Dominates(d, in)) {
 									deferred = true
 								}
+								// defer s.locked()(): the deferred function is the release returned by this very acquisition
+								if rc := releasedBy(core.CallOf(d)); rc != nil && ssa.Instruction(rc) == in {
+									deferred = true
+								}
 							}
 						}
 					}
@@ -109,6 +113,9 @@ func checkC20(c *Ctx) {
 						leak = core.ReachableAvoiding(in, core.IsReturn, func(x ssa.Instruction) bool {
 							if _, isD := x.(*ssa.Defer); isD {
 								return false
+							}
+							if rc := releasedBy(core.CallOf(x)); rc != nil && ssa.Instruction(rc) == in {
+								return true
 							}
 							b3, f3, o3, ok3 := lockEffect(core.CallOf(x))
 							return ok3 && b3 == base && f3 == field && (o3 == want || o3 == "Unlock")
